@@ -1,7 +1,7 @@
 """C18 Ring construction is all-or-nothing and honours its configuration."""
 import re
 
-from .kernel import (ExprBuilder, Loc, access_path, subexprs, variant_edges, is_local, const_val, rvalue_operands, rvalue_places)
+from .kernel import (ExprBuilder, Loc, access_path, subexprs, variant_edges, is_local, const_val, rvalue_operands, rvalue_places, table_rows)
 from . import families as fam
 from . import c10
 
@@ -227,23 +227,43 @@ def r3_features(r, facts):
         e = eb.operand(tt['discr'])
         if e[0] == 'bin' and e[1] in ('Eq', 'Ne') and e[3][0] == 'const' and e[3][1] == 0 and e[2][0] == 'bin' and e[2][1] == 'BitAnd':
             cs = [y for y in (e[2][2], e[2][3]) if y[0] == 'const' and y[2] and 'IORING_FEAT_' in str(y[2])]
-            fl = [y for y in (e[2][2], e[2][3]) if fam.last_field(y) == 'features']
+            fl = [y for y in (e[2][2], e[2][3]) if fam.last_field(y) == 'features' or (y[0] == 'arg' and y[2] == 'features')]
+            vals = {int(v): tg for v, tg in tt['targets']}
+            missing = vals.get(1, tt['otherwise']) if e[1] == 'Eq' else vals.get(0)
+            present = vals.get(0) if e[1] == 'Eq' else vals.get(1, tt['otherwise'])
             if cs and fl:
-                vals = {int(v): tg for v, tg in tt['targets']}
-                missing = vals.get(1, tt['otherwise']) if e[1] == 'Eq' else vals.get(0)
-                present = vals.get(0) if e[1] == 'Eq' else vals.get(1, tt['otherwise'])
-                found[str(cs[0][2]).rsplit('::', 1)[1]] = (b, missing, present)
+                found[str(cs[0][2]).rsplit('::', 1)[1]] = (b, missing, present, False)
+            elif fl:
+                # `for (required, msg) in REQUIRED_FEATURES { if features & required == 0 { return Err(..) } }`: one test per
+                # row of the table
+                for y in (e[2][2], e[2][3]):
+                    rows = table_rows(y)
+                    if rows:
+                        for x in rows:
+                            if x[0] == 'const' and 'IORING_FEAT_' in str(x[2]):
+                                found[str(x[2]).rsplit('::', 1)[1]] = (b, missing, present, True)
     for n in need:
         if not r.require(n in found, 'build_sys/feature:%s' % n, 'required feature %s is not checked' % n, f.where()):
             continue
-        b, missing, present = found[n]
-        r.inst('%s checked' % n, f.where(f.term_loc(b)))
-        r.require(f.edge_dominates((b, present), nl), 'build_sys/feature-order:%s' % n, 'Shared::new is reachable without %s having been verified' % n, f.where(f.term_loc(b)))
+        b, missing, present, looped = found[n]
+        r.inst('%s checked%s' % (n, ' (row of a table the check loops over)' if looped else ''), f.where(f.term_loc(b)))
+        if looped:
+            # every row is visited before Shared::new: from the function entry the ring is only built after the
+            # iterator is exhausted, and a passed test leads back to next()
+            nexts = [l for l, t2 in f.calls() if (t2.get('callee') or '') == 'std::iter::Iterator::next']
+            none_edges = [Loc(v2['edge'][1], 0) for v2 in variant_edges(f, 'std::option::Option', 'None')
+                          if any(f.at(nx)['dest']['l'] == v2['si']['place']['l'] for nx in nexts)]
+            ok_order = bool(nexts) and bool(none_edges) and f.forward_paths_hit([Loc(0, 0)], [nl], blockers=none_edges) is None \
+                and f.forward_paths_hit([Loc(present, 0)], [nl], blockers=nexts) is None
+            r.require(ok_order, 'build_sys/feature-order:%s' % n, 'Shared::new is reachable without %s having been verified' % n, f.where(f.term_loc(b)))
+        else:
+            r.require(f.edge_dominates((b, present), nl), 'build_sys/feature-order:%s' % n, 'Shared::new is reachable without %s having been verified' % n, f.where(f.term_loc(b)))
         hit = f.forward_paths_hit([Loc(missing, 0)], [nl])
         r.require(hit is None, 'build_sys/feature-ignored:%s' % n, 'a missing %s does not abort ring construction' % n, f.where(f.term_loc(b)))
         # Err is what is returned
         errs = [l for l, s in f.assigns() if s['lhs']['l'] == 0 and s['rv']['k'] == 'agg' and s['rv'].get('variant') == 'Err']
-        hit = f.forward_paths_hit([Loc(missing, 0)], f.returns(), blockers=errs)
+        # (or the Err travels through `?` out of an inlined helper: the return slot is known to hold an Err)
+        hit = f.forward_paths_hit([Loc(missing, 0)], f.returns(), blockers=errs, stop_env=lambda env: env.get(('D', 0)) == 1)
         r.require(hit is None, 'build_sys/feature-not-err:%s' % n, 'a missing %s does not produce an Err' % n, f.where(f.term_loc(b)))
     r.floor(4)
 
